@@ -119,6 +119,13 @@ CLAIMED = {
             'DESIGN.md 4/C20', 'int/float/str/ConfigParser contracts assumed (listed in evidence)',
             'contract-based deductive verification: symbolic execution with uninterpreted string functions + SMT, plus '
             'syntactic call-order obligations'),
+    'C16': ('proof',
+            'Partial: SuiteSparseSolver.solve (A^-1 b or NaN vector when singular; stale symbolic factor refreshed and retried; '
+            'factorize flag cleared), KLU/UMFPACK linsolve (same, after fix F15), SpSolve.solve (refresh request => '
+            're-factorised; flags cleared), spmatrix_to_csc (CCS components in the right csc_matrix slots), Solver dispatch - '
+            'against assumed kvxopt/SciPy contracts. Cross-back-end numeric agreement and bit-identity are not decided.',
+            'DESIGN.md 4/C16', 'kvxopt/SuiteSparse/SciPy contracts assumed; matrices uninterpreted',
+            'contract-based deductive verification: symbolic execution over uninterpreted matrix sorts + SMT'),
 }
 
 ALL = ['C%02d' % i for i in range(1, 21)]
